@@ -1285,10 +1285,105 @@ def c10_top_job(args):
                     out["violations"].append(("c10-gen-coords-refuses-connected", "gen_coords raised %s: %s for a molecule whose atoms are all connected"
                                               % (type(e).__name__, str(e)[:200]), inputs, ""))
             if built and not atoms_connected:
-                out["violations"].append(("c10-gen-coords-builds-atom-disconnected-molecule",
+                out["violations"].append(("c10-gen-coords-builds-atom-disconnected-molecule" if res_connected else
+                                          "c10-gen-coords-builds-residue-disconnected-molecule",
                                           "gen_coords wrote coordinates for a molecule whose atoms are not all connected (residue graph %s; _check_molecules %s)"
                                           % ("connected" if res_connected else "disconnected", "raised" if raised else "accepted"), inputs,
                                           "atom components: %s" % [sorted(c) for c in nx.connected_components(ag)]))
+    except Exception as e:                                    # noqa: BLE001
+        out["violations"].append(("c10-topology-crash-%s" % type(e).__name__, "%s: %s" % (type(e).__name__, str(e)[:300]), inputs, ""))
+    shutil.rmtree(d, ignore_errors=True)
+    return out
+
+
+# molecule types of the multi-molecule topologies: (residues, residue edges); every residue has X-Y, every residue edge Y_u - X_v
+MULTI_TYPES = {"MC": (2, [(0, 1)]), "MP": (3, [(0, 1), (1, 2)]), "MD": (2, []), "ME": (3, [(0, 1)])}
+MULTI_DISCONNECTED = ("MD", "ME")
+
+
+def multi_entries(thorough):
+    """every [ molecules ] list of 1..3 entries over the molecule types x counts {1,2} (the same type may be repeated in
+    adjacent entries), i.e. the residue-graph-disconnected type at every position, after every prefix"""
+    types = ("MC", "MP", "MD", "ME") if thorough else ("MC", "MP", "MD")
+    out = []
+    for length in (1, 2, 3):
+        for seq in itertools.product(types, repeat=length):
+            for counts in itertools.product((1, 2), repeat=length):
+                out.append(list(zip(seq, counts)))
+    return out
+
+
+def write_multi_top(dirname, entries):
+    os.makedirs(dirname, exist_ok=True)
+    with open(os.path.join(dirname, "mols.itp"), "w") as fh:
+        for name, (n, edges) in MULTI_TYPES.items():
+            atoms = []
+            for r in range(n):
+                atoms.append("%d P1 %d A X %d 0.0 72.0" % (2 * r + 1, r + 1, 2 * r + 1))
+                atoms.append("%d P1 %d A Y %d 0.0 72.0" % (2 * r + 2, r + 1, 2 * r + 2))
+            bonds = [(2 * r + 1, 2 * r + 2) for r in range(n)] + [(2 * a + 2, 2 * b + 1) for a, b in edges]
+            fh.write("[ moleculetype ]\n%s 1\n[ atoms ]\n" % name + "\n".join(atoms) + "\n[ bonds ]\n"
+                     + "\n".join("%d %d 1 0.35 1000" % b for b in bonds) + "\n\n")
+    with open(os.path.join(dirname, "sys.top"), "w") as fh:
+        fh.write('[ defaults ]\n1 1 no 1.0 1.0\n[ atomtypes ]\nP1 72.0 0.0 A 0.47 4.0\n#include "mols.itp"\n[ system ]\ntest\n[ molecules ]\n'
+                 + "".join("%s %d\n" % e for e in entries))
+    return os.path.join(dirname, "sys.top")
+
+
+def c10_multi_job(args):
+    """one topology with several [ molecules ] entries: _check_molecules(topology.molecules) must raise iff SOME molecule's
+    residue graph is disconnected, wherever it stands in the list; gen_coords end to end on a stated subset"""
+    import numpy as np
+    import sys
+    import functools
+    jid, entries, run_gen_coords, scratch, seed = args
+    gc = load("polyply.src.gen_coords")
+    topm = load("polyply.src.topology")
+    for mname, mod in list(sys.modules.items()):             # silence progress bars only (same iteration)
+        if mname.startswith("polyply") and getattr(getattr(mod, "tqdm", None), "__name__", "") == "tqdm":
+            mod.tqdm = functools.partial(mod.tqdm, disable=True)
+    expanded = [name for name, count in entries for _ in range(count)]
+    bad_positions = [i for i, name in enumerate(expanded) if name in MULTI_DISCONNECTED]
+    must_raise = bool(bad_positions)
+    d = os.path.join(scratch, "mtop_%05d" % jid)
+    top_path = write_multi_top(d, entries)
+    inputs = {"molecules": ["%s %d" % e for e in entries],
+              "types": {k: {"residues": v[0], "residue_edges": [list(e) for e in v[1]]} for k, v in MULTI_TYPES.items() if k in expanded}}
+    out = {"violations": [], "evaluations": 1, "gen_coords": 0,
+           "nontrivial": int(must_raise and bad_positions[0] > 0)}          # a disconnected molecule that is NOT the first one
+    try:
+        top = topm.Topology.from_gmx_topfile(name="t", path=Path(top_path))
+        top.preprocess()
+        if len(top.molecules) != len(expanded):
+            out["violations"].append(("c10-topology-molecule-count", "topology has %d molecules, [ molecules ] lists %d" % (len(top.molecules), len(expanded)), inputs, ""))
+        try:
+            gc._check_molecules(top.molecules)
+            raised = False
+        except IOError:
+            raised = True
+        if raised != must_raise:
+            what = ("_check_molecules accepts a topology whose molecule(s) at position(s) %s of %d have a disconnected residue graph"
+                    % ([i + 1 for i in bad_positions], len(expanded))) if must_raise else \
+                "_check_molecules raises for a topology in which every molecule's residue graph is connected"
+            out["violations"].append(("c10-check-molecules", what, inputs, "molecule list: %s" % expanded))
+        if run_gen_coords:
+            out["evaluations"] += 1
+            out["gen_coords"] = 1
+            np.random.seed(seed)
+            gro = os.path.join(d, "out.gro")
+            try:
+                gc.gen_coords(Path(top_path), Path(gro), "t", box=np.array([8.0, 8.0, 8.0]))
+                built = os.path.exists(gro)
+            except Exception as e:                            # noqa: BLE001
+                built = False
+                if not must_raise:
+                    out["violations"].append(("c10-gen-coords-refuses-connected", "gen_coords raised %s: %s for a topology whose molecules are all connected"
+                                              % (type(e).__name__, str(e)[:200]), inputs, ""))
+            if built and must_raise:
+                out["violations"].append(("c10-gen-coords-builds-residue-disconnected-molecule",
+                                          "gen_coords wrote coordinates for a topology whose molecule(s) at position(s) %s of %d have a disconnected residue graph "
+                                          "(_check_molecules %s)" % ([i + 1 for i in bad_positions], len(expanded), "raised" if raised else "accepted"),
+                                          inputs, "molecule list: %s" % expanded))
     except Exception as e:                                    # noqa: BLE001
         out["violations"].append(("c10-topology-crash-%s" % type(e).__name__, "%s: %s" % (type(e).__name__, str(e)[:300]), inputs, ""))
     shutil.rmtree(d, ignore_errors=True)
@@ -1313,9 +1408,18 @@ def run_c10(ctx, res):
                     if variant == "strands" and n < 2:
                         continue
                     tjobs.append((len(tjobs), n, edges, variant, n <= (4 if ctx.thorough else 3), scratch, ctx.seed))
+        mjobs = []
+        for entries in multi_entries(ctx.thorough):
+            expanded = [name for name, count in entries for _ in range(count)]
+            # gen_coords end to end: every list of <= 2 entries with counts 1, and every 3-entry list with counts 1 that holds at most one
+            # disconnected molecule (the disconnected type first / in the middle / last, also after a repeated connected type)
+            e2e_run = all(c == 1 for _, c in entries) and (len(entries) <= 2 or sum(n in MULTI_DISCONNECTED for n in expanded) <= 1) \
+                and (ctx.thorough or "ME" not in expanded)
+            mjobs.append((len(mjobs), entries, e2e_run, scratch, ctx.seed))
         with mp.Pool(min(16, os.cpu_count() or 1)) as pool:
             outs = pool.map(c10_job, jobs, chunksize=1)
             touts = pool.map(c10_top_job, tjobs, chunksize=2)
+            mouts = pool.map(c10_multi_job, mjobs, chunksize=4)
         viols, counts, e2e = {}, {}, 0
         for o in outs:
             res.evaluations += o["evaluations"]
@@ -1336,6 +1440,16 @@ def run_c10(ctx, res):
             for v in o["violations"]:
                 counts[v[0]] = counts.get(v[0], 0) + 1
                 viols.setdefault(v[0], []).append(v)
+        n_multi = n_multi_gc = n_multi_late = 0
+        for o in mouts:
+            res.evaluations += o["evaluations"]
+            res.nontrivial += o["nontrivial"]
+            n_multi += 1
+            n_multi_gc += o["gen_coords"]
+            n_multi_late += o["nontrivial"]
+            for v in o["violations"]:
+                counts[v[0]] = counts.get(v[0], 0) + 1
+                viols.setdefault(v[0], []).append(v)
         for k in viols:
             viols[k].sort(key=lambda v: len(json.dumps(v[2], default=str)))
         rank = sorted(viols, key=lambda k: (k == "c10-gen-coords-builds-atom-disconnected-molecule", k))
@@ -1352,13 +1466,19 @@ def run_c10(ctx, res):
                      "residue graph on <= %d nodes x resnames over {A,B} x {resids in node order, one seeded shuffle} = %d graph worlds; gen_params end to "
                      "end with captured log records on every world with <= 3 residues and every 5th larger one (%d runs).  Connectivity gate: %d "
                      "topologies written to .top/.itp files = every graph (connected or not) on <= %d residues x {all atoms connected, one isolated atom, "
-                     "two parallel strands}: _check_molecules on all, gen_coords end to end on those with <= %d residues"
-                     % (len(specs), ", every triple" if ctx.thorough else "", nmax, len(worlds), e2e, n_top, nmax, 4 if ctx.thorough else 3))
+                     "two parallel strands}: _check_molecules on all, gen_coords end to end on those with <= %d residues.  Multi-molecule gate: %d topologies "
+                     "= every [ molecules ] list of 1..3 entries over %d molecule types (connected 2- and 3-residue chains, residue-graph-disconnected "
+                     "ones) x counts {1,2} per entry (same type may repeat): Topology.from_gmx_topfile + preprocess + _check_molecules on all (%d of them "
+                     "have their first disconnected molecule NOT in first position), gen_coords end to end on %d"
+                     % (len(specs), ", every triple" if ctx.thorough else "", nmax, len(worlds), e2e, n_top, nmax, 4 if ctx.thorough else 3,
+                        n_multi, 4 if ctx.thorough else 3, n_multi_late, n_multi_gc))
         res.rule = ("world = (force-field files, residue graph): after MapToMolecule + ApplyLinks the atom-level edges between every two residues are "
                     "recounted from meta.molecule.edges and the atoms' resid; each residue-graph edge must be realised XOR reported by "
                     "find_missing_edges (exactly once, right names), nothing else reported; gen_params must log exactly one warning per missing pair. "
-                    "Non-trivial iff the world has at least one realised AND at least one missing residue edge; a topology is non-trivial iff its atoms "
-                    "are not all connected")
+                    "Non-trivial iff the world has at least one realised AND at least one missing residue edge; a single-molecule topology is non-trivial "
+                    "iff its atoms are not all connected; a multi-molecule topology is non-trivial iff it holds a residue-graph-disconnected molecule that is "
+                    "not the first molecule.  _check_molecules must raise iff SOME molecule of the list has a disconnected residue graph; gen_coords must "
+                    "refuse molecules whose atoms are not all connected")
         res.exhaustive = True
         res.assumptions.append("bounded: resids contiguous; the missing-link report is observed through the real logging path of gen_params on a stated subset")
     finally:
